@@ -161,3 +161,13 @@ func init() {
 	AddControl(Control{ID: "c01-buffer-read-advance", Prop: "C01", Rule: "C01.buffer", File: "pkg/bitio/buffer.go",
 		Old: "	b.bitsOff += c\n", New: "	b.bitsOff += nBits\n", ExpectKey: "ReadBits:advance"})
 }
+
+func init() {
+	AddControl(Control{ID: "c13-jqtype-string-slice", Prop: "C13", Rule: "C13.jqtype", File: "format/text/url.go",
+		Old: "				qm[k] = vm\n", New: "				qm[k] = v\n				_ = vm\n", ExpectKey: ""})
+}
+
+func init() {
+	AddControl(Control{ID: "c18-stateful-decoder-table", Prop: "C18", Rule: "C18.stateful", File: "format/id3/id3v2.go",
+		Old: "func decodeToString(e int, b []byte) string {", New: "var sharedUTF8Decoder = unicode.UTF8.NewDecoder()\n\nfunc decodeToString(e int, b []byte) string {", ExpectKey: "format/id3.sharedUTF8Decoder"})
+}
